@@ -75,6 +75,7 @@ def handle (op : String) (j : Json) : Except String Json := do
     let tabs ← (← getArr j "tables").mapM (fun t => do pure (toBytes (← t.getStr?)))
     let prog ← parseProg (← j.getObjVal? "prog")
     let nF ← getNat j "nF"
+    let cmp ← getStr j "cmp"
     let replJ ← getArr j "repl"
     let repl ← replJ.mapM (fun r => do
       let a ← r.getArr?
@@ -91,7 +92,7 @@ def handle (op : String) (j : Json) : Except String Json := do
       match prog.evalSpec recTabs with
       | none => errIdx
       | some rs =>
-        if repl.isEmpty then Json.mkObj [("out", bstr (toBytes hdr ++ specBytes (rs.map (·.1))))]
+        if cmp == "bytes" then Json.mkObj [("out", bstr (toBytes hdr ++ specBytes (rs.map (·.1))))]
         else
           let rows := (List.range rs.length).map (fun i =>
             (List.range nF).map (fun jj =>
@@ -102,13 +103,14 @@ def handle (op : String) (j : Json) : Except String Json := do
     -- model side
     let exts := tabs.map (build fmt)
     if exts.any (·.isNone) then
-      return reply (Json.mkObj [("err", str "read")]) (some spec)
+      return reply (Json.mkObj [("err", str "other:AttributeError")]) (some spec)
     let exts := exts.filterMap id
+    let inv := exts.all (·.invB)
     let model : Json :=
       match prog.evalExt exts with
       | none => errIdx
       | some e =>
-        if repl.isEmpty then Json.mkObj [("out", bstr (toBytes hdr ++ e.bytes))]
+        if repl.isEmpty then Json.mkObj [("out", bstr (toBytes hdr ++ e.bytes)), ("inv", Json.bool inv)]
         else
           let cols := (List.range nF).map (fun jj =>
             match repl.find? (·.1 == jj) with
@@ -118,7 +120,7 @@ def handle (op : String) (j : Json) : Except String Json := do
             | "fastq" => joinKLine 64 e.len (cols.take 2 ++ [List.replicate e.len [43]] ++ cols.drop 2)
             | "fasta2" => joinKLine 62 e.len cols
             | _ => joinDelimited 9 e.len cols
-          Json.mkObj [("out", bstr (toBytes hdr ++ body))]
+          Json.mkObj [("out", bstr (toBytes hdr ++ body)), ("inv", Json.bool inv)]
     pure (reply model (some spec))
   | _ => throw s!"C04: unknown op {op}"
 
